@@ -16,6 +16,22 @@
 (*   check_exists(id, "index.wtml") = IndexInStore(id): what `pipeline refresh`*)
 (*              (cli.py refresh_impl) uses to skip a candidate as already done.*)
 (*                                                                             *)
+(* FILE SETS WITH SUB-FOLDERS.  A file of an image is named by its path        *)
+(* relative to the image directory ("tiles/1/0_0.png"); TopOf gives the name   *)
+(* of the sub-folder of the image directory it lies in.  As built (Traversal = *)
+(* "listdir") publish() lists the image directory once and opens EVERY entry   *)
+(* as a file: at a sub-folder open(p, 'rb') raises IsADirectoryError, which    *)
+(* ends the run (action RefuseSubdir).  index.wtml being last, it is never     *)
+(* transferred for such an image: the refusal fails closed (NestedClosed), and *)
+(* no re-run ever publishes the image - "re-running completes the job" is      *)
+(* claimed for flat file sets only (Publishable).  Traversal = "descend-..."   *)
+(* is the to-be model of a publisher that does transfer the files of           *)
+(* sub-folders: with index.wtml last among ALL files of the image every        *)
+(* sentence holds ("descend-index-last"); with nothing assumed about the order *)
+(* ("descend-any") the graph contains every traversal such a publisher could   *)
+(* make, and the property's formulas classify its states (the harness follows  *)
+(* the traversal the code under test is observed to make).                     *)
+(*                                                                             *)
 (* The operating system chooses the order of both directory listings anew in   *)
 (* every run.  Crash (the process dies), Fail (put_item raises), Refuse (the    *)
 (* store cannot create the destination file) and StoreFail (a write, the flush *)
@@ -27,7 +43,10 @@ EXTENDS Naturals, Sequences, FiniteSets, TLC
 CONSTANTS Configs,     \* set of functions: image id |-> set of file names in its approved directory
           Index,       \* the name "index.wtml"
           MaxFaults,   \* fault budget of one behaviour
-          Atomic       \* store model (see above)
+          Atomic,      \* store model (see above)
+          TopOf,       \* file path |-> the sub-folder of the image directory it lies in (first path component),
+                       \* None for a file directly in the image directory
+          Traversal    \* "listdir" (as built) | "descend-index-last" | "descend-any" (see above)
 
 None == "-"
 Perms(S) == {s \in [1..Cardinality(S) -> S] : \A x \in S : \E i \in 1..Cardinality(S) : s[i] = x}
@@ -44,9 +63,17 @@ Reorder(s) == IF ~HasIndex(s) THEN s
                    IN [s1 EXCEPT ![ii] = temp]
 
 Range(s) == {s[i] : i \in DOMAIN s}
+\* what os.listdir(approved/<image>) returns for the file set S: the files directly in the directory and its sub-folders
+TopFilesOf(S) == {f \in S : TopOf[f] = None}
+SubDirsOf(S) == {TopOf[f] : f \in S} \ {None}
+EntriesOf(S) == TopFilesOf(S) \cup SubDirsOf(S)
+ASSUME \A c \in Configs : \A i \in DOMAIN c : /\ c[i] \subseteq DOMAIN TopOf
+                                               /\ SubDirsOf(c[i]) \cap c[i] = {}
+                                               /\ (Index \in c[i] => TopOf[Index] = None)
+ASSUME Traversal \in {"listdir", "descend-index-last", "descend-any"}
 \* the reordering is a rearrangement of the listing that puts index.wtml last (checked for every listing)
-ReorderOK == \A c \in Configs : \A i \in DOMAIN c : \A s \in Perms(c[i]) :
-                LET r == Reorder(s) IN /\ Len(r) = Len(s) /\ Range(r) = c[i]
+ReorderOK == \A c \in Configs : \A i \in DOMAIN c : \A s \in Perms(EntriesOf(c[i])) :
+                LET r == Reorder(s) IN /\ Len(r) = Len(s) /\ Range(r) = EntriesOf(c[i])
                                        /\ \A a, b \in DOMAIN r : a # b => r[a] # r[b]
                                        /\ (Index \in c[i] => r[Len(r)] = Index)
                                        /\ (Index \notin c[i] => r = s)
@@ -66,6 +93,13 @@ vars == <<files, store, loc, pc, queue, cur, listing, order, k, faults>>
 
 Images == DOMAIN files
 Approved == {i \in Images : loc[i] = "approved"}
+SubDirs(i) == SubDirsOf(files[i])
+Entries(i) == EntriesOf(files[i])
+\* the transfer lists a descending publisher may use
+DescendOrders(i) == {s \in Perms(files[i]) : Traversal = "descend-index-last" /\ HasIndex(s) => s[Len(s)] = Index}
+\* the slot the inner loop is at holds a file / a sub-folder
+AtFile == k <= Len(order) /\ order[k] \in files[cur]
+AtSubdir == k <= Len(order) /\ order[k] \notin files[cur]
 
 Init == /\ files \in Configs
         /\ store = [i \in DOMAIN files |-> [f \in files[i] |-> "absent"]]
@@ -81,14 +115,25 @@ Start == /\ pc = "idle" /\ Approved # {}
          /\ UNCHANGED <<files, store, loc, cur, listing, order, k, faults>>
 
 \* outer loop: next image, list its directory, move index.wtml to the end
+\* (a descending publisher: some arrangement of all the files of the image; its listings are not modelled)
 NextImage == /\ pc = "next" /\ queue # <<>>
              /\ cur' = Head(queue) /\ queue' = Tail(queue)
-             /\ \E s \in Perms(files[Head(queue)]) : listing' = s /\ order' = Reorder(s)
+             /\ IF Traversal = "listdir"
+                  THEN \E s \in Perms(Entries(Head(queue))) : listing' = s /\ order' = Reorder(s)
+                  ELSE \E s \in DescendOrders(Head(queue)) : listing' = s /\ order' = s
              /\ k' = 1 /\ pc' = "put"
              /\ UNCHANGED <<files, store, loc, faults>>
 
+\* the inner loop reaches a sub-folder: open(p, 'rb') raises IsADirectoryError before put_item is called; the
+\* exception ends the run with nothing transferred for this slot and the image still in approved/.  This is a step
+\* of the program as built, not a fault.
+RefuseSubdir == /\ Traversal = "listdir"
+                /\ pc = "put" /\ AtSubdir
+                /\ pc' = "idle" /\ NoRun
+                /\ UNCHANGED <<files, store, loc, faults>>
+
 \* put_item opens the destination
-BeginPut == /\ pc = "put" /\ k <= Len(order)
+BeginPut == /\ pc = "put" /\ AtFile
             /\ store' = IF Atomic THEN store ELSE [store EXCEPT ![cur][order[k]] = "partial"]
             /\ pc' = "writing"
             /\ UNCHANGED <<files, loc, queue, cur, listing, order, k, faults>>
@@ -111,13 +156,16 @@ Finish == /\ pc = "next" /\ queue = <<>>
           /\ UNCHANGED <<files, store, loc, faults>>
 
 \* the process dies: before a transfer (= after the previous one), in the middle of one, or after the last
-\* transfer and before the rename
-Crash == /\ pc \in {"put", "writing"} /\ faults < MaxFaults
+\* transfer and before the rename (at a sub-folder slot: after the previous transfer; a death between the listing
+\* and the refusal of a sub-folder in the first slot is a run that did nothing and is not modelled)
+Crash == /\ \/ pc = "writing"
+            \/ pc = "put" /\ (~AtSubdir \/ k > 1)
+         /\ faults < MaxFaults
          /\ faults' = faults + 1 /\ pc' = "idle" /\ NoRun
          /\ UNCHANGED <<files, store, loc>>
 
 \* put_item raises: at once (nothing written) or in the middle of the transfer; the exception ends the run
-Fail == /\ \/ pc = "put" /\ k <= Len(order)
+Fail == /\ \/ pc = "put" /\ AtFile
            \/ pc = "writing"
         /\ faults < MaxFaults
         /\ faults' = faults + 1 /\ pc' = "idle" /\ NoRun
@@ -128,7 +176,7 @@ Fail == /\ \/ pc = "put" /\ k <= Len(order)
 \* (absent, or the old copy of an earlier attempt), put_item raises and the run ends.  As a relation on states
 \* this is Fail at the head of a transfer; it is a separate action because it is a separate fault point of the
 \* code (the clean-up path of put_item runs although the destination / temporary file was never created).
-Refuse == /\ pc = "put" /\ k <= Len(order)
+Refuse == /\ pc = "put" /\ AtFile
           /\ faults < MaxFaults
           /\ faults' = faults + 1 /\ pc' = "idle" /\ NoRun
           /\ UNCHANGED <<files, store, loc>>
@@ -144,7 +192,7 @@ StoreFail == /\ pc = "writing"
              /\ faults' = faults + 1 /\ pc' = "idle" /\ NoRun
              /\ UNCHANGED <<files, store, loc>>
 
-Step == Start \/ NextImage \/ BeginPut \/ EndPut \/ Rename \/ Finish
+Step == Start \/ NextImage \/ BeginPut \/ EndPut \/ RefuseSubdir \/ Rename \/ Finish
 Next == Step \/ Crash \/ Fail \/ Refuse \/ StoreFail
 Spec == Init /\ [][Next]_vars /\ WF_vars(Step)
 
@@ -160,8 +208,10 @@ TypeOK == /\ files \in Configs
           /\ \A i \in Images : loc[i] \in {"approved", "published"}
           /\ pc \in {"idle", "next", "put", "writing"}
           /\ faults \in 0..MaxFaults
-          /\ (pc \in {"put", "writing"} => cur \in Approved /\ k \in 1..(Len(order) + 1) /\ order = Reorder(listing))
-          /\ (pc = "writing" => k <= Len(order))
+          /\ (pc \in {"put", "writing"} => cur \in Approved /\ k \in 1..(Len(order) + 1))
+          /\ (pc \in {"put", "writing"} /\ Traversal = "listdir" => order = Reorder(listing) /\ Range(listing) = Entries(cur))
+          /\ (pc \in {"put", "writing"} /\ Traversal # "listdir" => Range(order) = files[cur])
+          /\ (pc = "writing" => AtFile)
           /\ (Atomic => \A i \in Images : \A f \in files[i] : store[i][f] # "partial")
 
 \* "index.wtml is transferred strictly after every other file of that image"
@@ -196,8 +246,17 @@ QUnfinishedIsApproved == Quiescent => UnfinishedIsApproved
 SkippedIsWhole == \A i \in Images : RefreshSkips(i) => AllComplete(i)
 QSkippedIsWhole == Quiescent => SkippedIsWhole
 
-\* "re-running publish completes the job" (fair scheduling of the program's own steps, finitely many faults)
+\* as built, an image with a sub-folder fails closed: its index.wtml never reaches the store (so refresh never
+\* skips it) and it never leaves approved/
+NestedClosed == Traversal = "listdir" =>
+                  \A i \in Images : SubDirs(i) # {} => /\ loc[i] = "approved"
+                                                       /\ (Index \in files[i] => store[i][Index] = "absent")
+
+\* "re-running publish completes the job" (fair scheduling of the program's own steps, finitely many faults).
+\* As built this can only be said of flat file sets (what the pipeline's own image sources produce): one image with
+\* a sub-folder is refused in every run, and the refusal ends the run before the images listed after it are visited.
 Done == \A i \in Images : loc[i] = "published" /\ AllComplete(i)
-Completes == <>[]Done
-ReRunCompletes == (pc = "idle" /\ faults = MaxFaults) ~> Done
+Publishable == Traversal # "listdir" \/ \A i \in Images : SubDirs(i) = {}
+Completes == <>[](Publishable => Done)
+ReRunCompletes == (pc = "idle" /\ faults = MaxFaults /\ Publishable) ~> Done
 =============================================================================
